@@ -396,6 +396,8 @@ def expected_decided(args, prop, results, tier):
         if r is None:
             continue  # function no longer generated (matrix changed): not a regression
         if r["status"] != "ok":
+            if "time budget" in str(r.get("reason", "")):
+                continue  # a slower machine, not a change in the code under analysis
             out.append(f"{key}: now {r['status']}: {r.get('reason', r.get('error', ''))[:120]}")
         elif [u for u in r["undecided"] if "budget" not in u]:
             out.append(f"{key}: queries became undecided: {r['undecided'][:2]}")
